@@ -142,6 +142,8 @@ class EthAddr (_AddrBase):
     elif isinstance(addr, EthAddr):
       self._value = addr.toRaw()
     elif isinstance(addr, (list,tuple,bytearray)):
+      if len(addr) != 6:
+        raise RuntimeError("Expected ethernet address to be 6 bytes")
       self._value = bytes(addr)
     elif (hasattr(addr, '__len__') and len(addr) == 6
           and hasattr(addr, '__iter__')):
